@@ -61,6 +61,7 @@ def record_book(core, dp, rnd, f, run, ops, feats, panics, samples):
     base = rnd.randrange(1, 200)
     nprices = rnd.choice([4, 8, 20])
     now = t0
+    back = False
     prev_orders, n_trades = [], 0
     n = 0
     ev = {"op": "reset", "py": True, "run": run, "t0": t0, "tick": tick, "trading": trading, "levels": 10, "pv": book_scalars(b),
@@ -91,7 +92,11 @@ def record_book(core, dp, rnd, f, run, ops, feats, panics, samples):
             nv = rnd.choice([-1, max(cur - rnd.randrange(1, 5), 1), cur, cur + rnd.randrange(1, 30)])
             lbl = {"op": "modify", "dt": dt, "id": i, "p": np_, "v": nv}
         elif r < 0.87:
-            lbl = {"op": "settime", "t": now + rnd.randrange(0, 5)}
+            # set_time is a plain assignment: also to earlier times (C18 quantifies over every call sequence)
+            lbl = {"op": "settime", "t": max(0, now + rnd.randrange(-3, 5))}
+            if lbl["t"] < now:
+                back = True
+                feats["clock_moved_back"] = feats.get("clock_moved_back", 0) + 1
         elif r < 0.92:
             trading = not trading
             lbl = {"op": "enable" if trading else "disable"}
@@ -165,6 +170,8 @@ def record_book(core, dp, rnd, f, run, ops, feats, panics, samples):
         ev = dict(lbl)
         ev.update({"py": True, "exc": exc, "pv": pv, "no": len(orders), "nt": len(trades), "do": d_o, "newtr": d_t,
                    "audit": (k + 1) % 25 == 0 or k + 1 == n_ops})
+        if back:
+            ev["clock_was_moved_back"] = True
         ev.setdefault("dt", 0)
         f.write(json.dumps(ev) + "\n")
         n += 1
